@@ -21,7 +21,7 @@ classdef("liquer.context.Vars", fields={})
 classdef("liquer.context.Context",
          fields=dict(query=Opt(Ref("Query")), raw_query=Opt(Str), status=Str, _metadata=Any, vars=Ref("Vars"), evaluated_key=Opt(Str), cwd_key=Opt(Str),
                      enable_store_metadata=Bool, parent_query=Opt(Str), store_key=Opt(Str), store_to=Opt(Ref("TargetStore")), started=Str,
-                     is_error=Bool, caching=Bool))
+                     is_error=Bool, caching=Bool, argument_queries=Any))
 CX = Ref("Context")
 classdef("TargetStore", abstract=True, fields={})       # the store an evaluation writes its result to (any store)
 
@@ -144,6 +144,9 @@ def _(self, query, cache=None, description=None, store_key=None, store_to=None, 
     ensures(implies(old(isnone(self.query)), log_count("Context._store_state") >= 1 and log_arg("Context._store_state", "state") is result),
             "C08:every-result-served-or-computed-is-handed-to-the-store-writer")
     ensures(state_wf(result.metadata), "the-result-is-a-state-with-the-standard-keys")
+    ensures(implies(old(not isnone(self.query)), self.raw_query == old(self.raw_query) and self.query == old(self.query)
+                    and self.parent_query == old(self.parent_query)),
+            "a-sub-query-evaluated-through-a-busy-context-leaves-that-context's-own-query-alone")
 
 
 prop("C05", fucs=["liquer.context.Context.evaluate", "liquer.context.Context.create_initial_state"])
